@@ -100,22 +100,22 @@ theorem trueRows_getElem (ks : List Kind) : ∀ (a c k : Nat) (h : k < ks.length
 theorem bumpN_zero (x inc : Nat) : bumpN x inc 0 = .ok x := rfl
 
 theorem bumpN_one (x inc : Nat) (h : x + inc ≤ usizeMax) : bumpN x inc 1 = .ok (x + inc) := by
-  simp [bumpN, addUsize, h]
+  simp [bumpN, addUsize, addUsizeSat, h]
 
 theorem paintLine_u_minus (c : Counters) (h : c.left + 1 ≤ usizeMax) :
     paintLine false c .minus none = .ok (⟨c.left + 1, c.right⟩, some (trueCell c.left c.right .minus)) := by
   simp [paintLine, linenumbersAndStyles, lookupArm, numberArms, St.code, incrementFor, incrementRule,
-    panelCode, bumpN, addUsize, h, emitFor, lookupEmit, emitArms, trueCell, Kind.isOld, Kind.isNew]
+    panelCode, bumpN, addUsize, addUsizeSat, h, emitFor, lookupEmit, emitArms, trueCell, Kind.isOld, Kind.isNew]
 
 theorem paintLine_u_plus (c : Counters) (h : c.right + 1 ≤ usizeMax) :
     paintLine false c .plus none = .ok (⟨c.left, c.right + 1⟩, some (trueCell c.left c.right .plus)) := by
   simp [paintLine, linenumbersAndStyles, lookupArm, numberArms, St.code, incrementFor, incrementRule,
-    panelCode, bumpN, addUsize, h, emitFor, lookupEmit, emitArms, trueCell, Kind.isOld, Kind.isNew]
+    panelCode, bumpN, addUsize, addUsizeSat, h, emitFor, lookupEmit, emitArms, trueCell, Kind.isOld, Kind.isNew]
 
 theorem paintLine_u_zero (c : Counters) (h : c.left + 1 ≤ usizeMax) (h' : c.right + 1 ≤ usizeMax) :
     paintLine false c .zero none = .ok (⟨c.left + 1, c.right + 1⟩, some (trueCell c.left c.right .ctx)) := by
   simp [paintLine, linenumbersAndStyles, lookupArm, numberArms, St.code, incrementFor, incrementRule,
-    panelCode, bumpN, addUsize, h, h', emitFor, lookupEmit, emitArms, trueCell, Kind.isOld, Kind.isNew]
+    panelCode, bumpN, addUsize, addUsizeSat, h, h', emitFor, lookupEmit, emitArms, trueCell, Kind.isOld, Kind.isNew]
 
 theorem paintLinesU_minus : ∀ (n : Nat) (c : Counters), c.left + n ≤ usizeMax →
     paintLinesU c .minus n = .ok (⟨c.left + n, c.right⟩, trueRows c.left c.right (List.replicate n .minus)) := by
